@@ -69,9 +69,12 @@ def force_status(app, inv_id: str, status, owner, ts=None):
     else:
         from pynenc.util.sqlite_utils import create_sqlite_connection as sqlite_conn
         with sqlite_conn(orch.sqlite_db_path) as conn:
-            conn.execute(
-                f"INSERT OR REPLACE INTO {orch.tables.INVOCATIONS} (invocation_id, task_id_key, call_id_key, status, status_runner_id, status_timestamp) VALUES (?,?,?,?,?,?)",
-                (inv_id, "mod.task", "mod.task:no_args", status.value, owner, ts.timestamp()))
+            cur = conn.execute(f"UPDATE {orch.tables.INVOCATIONS} SET status = ?, status_runner_id = ?, status_timestamp = ? WHERE invocation_id = ?",
+                               (status.value, owner, ts.timestamp(), inv_id))          # an existing row keeps its task / call keys
+            if cur.rowcount == 0:
+                conn.execute(
+                    f"INSERT OR REPLACE INTO {orch.tables.INVOCATIONS} (invocation_id, task_id_key, call_id_key, status, status_runner_id, status_timestamp) VALUES (?,?,?,?,?,?)",
+                    (inv_id, "mod.task", "mod.task:no_args", status.value, owner, ts.timestamp()))
             conn.commit()
 
 
